@@ -96,6 +96,24 @@ def witnesses(tier, seed):
                 k += 1
                 ax = [Axis(kind, *x) for x in tr]
                 W.append(mk_write(T3[k % 3], list(dims), ax, ALLOPS[k % 5], 'slice', ax, list(dims), noalias=False, same_tensor=True, family='perfect_overlap.' + kind))
+    # ... and with an EXPRESSION of the same slice on the right (a(r) = a(r) + a(r)): every element must be read before it is written,
+    # whatever the vector width does with the tail; unit-step ranges of every length class (below, at, just above and far above a width)
+    for (N, lens) in [(9, (2, 3, 5, 6, 7, 8)), (17, (9, 10, 11, 13, 15, 16)), (35, (17, 19, 24, 31, 33))]:
+        for ln in lens:
+            for f in (0, 1):
+                for kind in ('seq', 'fseq'):
+                    for op in ALLOPS:
+                        k += 1
+                        if quick and op not in ('=', '+=') and (k % 3):
+                            continue
+                        ax = [Axis(kind, f, f + ln, 1)]
+                        W.append(mk_write(T3[k % 3], [N], ax, op, 'slice', ax, [N], noalias=False, same_tensor=True, rhs_expr=True, family='perfect_overlap.expr.' + kind))
+    for (dims, axs) in [((4, 9), [(0, 4, 1), (1, 8, 1)]), ((3, 17), [(0, 3, 1), (0, 11, 1)]), ((2, 3, 9), [(0, 2, 1), (0, 3, 1), (1, 8, 1)])]:
+        for kind in ('seq', 'fseq'):
+            for op in ALLOPS:
+                k += 1
+                ax = [Axis(kind, *x) for x in axs]
+                W.append(mk_write(T3[k % 3], list(dims), ax, op, 'slice', ax, list(dims), noalias=False, same_tensor=True, rhs_expr=True, family='perfect_overlap.expr.' + kind))
     return group_sort(W)
 
 
